@@ -78,8 +78,8 @@ def build_body(item):
 
     def orc(h0, doc, flat, diags):
         core = h0.strip()
-        if not core or core.strip('~') == '':
-            return None                      # no maths material: outside the statement
+        if not ''.join(core.split()).strip('~'):
+            return None                      # no maths material (only ties / blanks): outside the statement
         lead = h0.lstrip().startswith('~')
         trail = h0.rstrip().endswith('~')
         last = core.rstrip('~ ').rstrip()[-1:] if core.rstrip('~ ') else ''
